@@ -90,7 +90,14 @@ class Mod(object):
         self.path = path
         self.relpath = relpath
         self.src = src
+        self.raw_tree = ast.parse(src, filename=path)
         self.tree = ast.parse(src, filename=path)
+        self.canon_stats = {}
+        self.canon_log = []
+        if os.environ.get("SA_NO_CANON") != "1":
+            from .canon import canonicalise
+            from .known_funcs import KNOWN
+            canonicalise(self.tree, name, KNOWN, self.canon_stats, self.canon_log)
         self.funcs = {}       # local qualname ('f' or 'C.m') -> Func
         self.classes = {}     # name -> Cls
         self.imports = {}     # local name -> ('mod', dotted) | ('attr', dotted module, attr)
